@@ -13,6 +13,7 @@ structure J (c : Ctx) (l : List Nat) : Prop where
   clean : Clean c.seg l
   isok : IsOK c.seg l c.is
   hw : HwOK c.highwater l
+  alloc : Alloc c.seg l
 
 def PS (c : Ctx) : Prop := ∃ l, J c l
 
@@ -32,7 +33,7 @@ theorem _root_.GrVerif.Seg.Linked.addGlyphs {s : Seg} {l : List Nat} (h : Linked
 
 theorem die_PS (c : Ctx) (h : PS c) : OutcomeP PS (die c) := by
   obtain ⟨l, hj⟩ := h
-  exact ⟨l, ⟨hj.linked, hj.clean, isok_last hj.linked, hj.hw⟩⟩
+  exact ⟨l, ⟨hj.linked, hj.clean, isok_last hj.linked, hj.hw, hj.alloc⟩⟩
 
 /-- the `next` pointer of a stream slot leads to a stream slot or to null -/
 theorem next_in {s : Seg} {l : List Nat} (h : Linked s l) {i : Nat} (hi : i ∈ l) : IsOK s l (s.get i).next := by
@@ -49,7 +50,7 @@ theorem next_PS (c : Ctx) (h : PS c) : OutcomeP PS (opNext c) := by
   · obtain ⟨l, hj⟩ := h
     split
     · rename_i i heq
-      refine ⟨l, ⟨by simpa using hj.linked, by simpa using hj.clean, ?_, by simpa using hj.hw⟩⟩
+      refine ⟨l, ⟨by simpa using hj.linked, by simpa using hj.clean, ?_, by simpa using hj.hw, by simpa using hj.alloc⟩⟩
       simp only [setMap_seg, setIs_seg, markHighpassed_seg, setMap_is, setIs_is]
       have hio := hj.isok
       rw [heq] at hio
@@ -59,7 +60,7 @@ theorem next_PS (c : Ctx) (h : PS c) : OutcomeP PS (opNext c) := by
       · cases h1
         rw [h4]
         exact isok_opt_mem (fun x hx => head?_mem hx)
-    · exact ⟨l, ⟨hj.linked, hj.clean, hj.isok, hj.hw⟩⟩
+    · exact ⟨l, ⟨hj.linked, hj.clean, hj.isok, hj.hw, hj.alloc⟩⟩
 
 /-- `delete_` -/
 theorem delete_PS (c : Ctx) (h : PS c) : OutcomeP PS (opDelete c) := by
@@ -107,7 +108,7 @@ theorem delete_PS (c : Ctx) (h : PS c) : OutcomeP PS (opDelete c) := by
         rcases List.mem_append.mp hx with hx | hx
         · exact List.mem_append_left _ hx
         · exact List.mem_append_right _ (List.mem_cons_of_mem _ hx)
-      refine ⟨a ++ b, ⟨?_, ?_, ?_, ?_⟩⟩
+      refine ⟨a ++ b, ⟨?_, ?_, ?_, ?_, ?_⟩⟩
       · simp only [setIs_seg, withSeg_seg, moveHighwater_seg]
         exact (l1.same ssd).addGlyphs _
       · simp only [setIs_seg, withSeg_seg, moveHighwater_seg]
@@ -163,6 +164,21 @@ theorem delete_PS (c : Ctx) (h : PS c) : OutcomeP PS (opDelete c) := by
           · rcases List.mem_cons.mp h1 with h2 | h2
             · exact absurd h2 hxi
             · exact List.mem_append_right _ h2
+      · -- every other slot in use that is live was in the stream before and still is; the deleted one is marked
+        simp only [setIs_seg, withSeg_seg, moveHighwater_seg]
+        intro j h1 h2 h3 h4
+        simp only [addGlyphs_size, addGlyphs_free, addGlyphs_get] at h1 h2 h3 h4
+        rw [ssd.size, t1.size] at h1; rw [ssd.free, t1.free] at h2
+        rw [(ssd.slot j).2.2.2, (t1.flags j).2] at h3; rw [(ssd.slot j).2.2.1, (t1.flags j).1] at h4
+        have hji : j ≠ i := fun hh => by
+          rw [hh, get_upd_self _ _ _ his] at h4; simp at h4
+        rw [get_upd_ne _ _ _ _ hji] at h3 h4
+        have hjl := hj.alloc j (by simpa using h1) (by simpa using h2) h3 h4
+        rcases List.mem_append.mp hjl with hx | hx
+        · exact List.mem_append_left _ hx
+        · rcases List.mem_cons.mp hx with hx | hx
+          · exact absurd hx hji
+          · exact List.mem_append_right _ hx
 
 /-- where `insert` puts the new slot: in front of the current slot, of the first slot when the current one is the
 deleted former first slot, or at the end -/
@@ -187,7 +203,7 @@ theorem skip_split {s : Seg} {l : List Nat} {is : Option Nat} (hc : Clean s l) (
 theorem insert_PS (c : Ctx) (h : PS c) : OutcomeP PS (opInsert c) := by
   unfold opInsert
   simp only []
-  have h' : PS (c.setMaxSize (c.maxSize - 1)) := by obtain ⟨l, hj⟩ := h; exact ⟨l, ⟨hj.linked, hj.clean, hj.isok, hj.hw⟩⟩
+  have h' : PS (c.setMaxSize (c.maxSize - 1)) := by obtain ⟨l, hj⟩ := h; exact ⟨l, ⟨hj.linked, hj.clean, hj.isok, hj.hw, hj.alloc⟩⟩
   split
   · exact die_PS _ h'
   · split
@@ -207,7 +223,7 @@ theorem insert_PS (c : Ctx) (h : PS c) : OutcomeP PS (opInsert c) := by
         rcases List.mem_append.mp hx with hx | hx
         · exact List.mem_append_left _ hx
         · exact List.mem_append_right _ (List.mem_cons_of_mem _ hx)
-      refine ⟨a ++ k :: b, ⟨?_, ?_, ?_, ?_⟩⟩
+      refine ⟨a ++ k :: b, ⟨?_, ?_, ?_, ?_, ?_⟩⟩
       · simp only [setMap_seg, setIs_seg, withSeg_seg]
         exact l2.addGlyphs _
       · simp only [setMap_seg, setIs_seg, withSeg_seg]
@@ -246,5 +262,12 @@ theorem insert_PS (c : Ctx) (h : PS c) : OutcomeP PS (opInsert c) := by
       · simp only [setMap_highwater, setIs_highwater, withSeg_highwater, markHighpassed_highwater, setMaxSize_highwater]
         intro x hx
         exact hsub x (hj.hw x hx)
+      · simp only [setMap_seg, setIs_seg, withSeg_seg]
+        intro j h1 h2 h3 h4
+        simp only [addGlyphs_size, addGlyphs_free, addGlyphs_get] at h1 h2 h3 h4
+        rw [t2.size] at h1; rw [t2.free] at h2; rw [(t2.flags j).2] at h3; rw [(t2.flags j).1] at h4
+        rcases newSlot_alloc hj.alloc heq j h1 h2 h3 h4 with hx | hx
+        · exact hsub j hx
+        · rw [hx]; simp
 
 end GrVerif.Action
